@@ -11,12 +11,12 @@ import Lattigo.Model.MPShare
     cpk_share R <a:M> <s:iv> <e:iv>                        → M
     cpk_key <agg:M> <a:M>                                  → M|M
     agg <ms:v> T <k> <sh_1:M> … <sh_k:M>                   → M        (component-wise, no validation)
-    evk_share R <skInLvl> <skOutLvl> <sIn:iv> <sOut:iv> <crpShape:v> <crp:M> <e:IM> <lq> <lp> <b2> <shape:v>
+    evk_share R <skInLvl> <skOutLvl> <skInLvlP> <skOutLvlP> <sIn:iv> <sOut:iv> <crpShape:v> <crp:M> <e:IM> <lq> <lp> <b2> <shape:v>
                                                            → err | panic | M
     evk_agg R G1 G2 G3                                     → err | panic | M
     evk_aggtree R T <k> G_1 … G_k                          → err | panic | M
     evk_key R G <crpShape:v> <crp:M> G                     → err | panic | M
-    gal_share R <skLvl> <s:iv> <galEl> <crpShape:v> <crp:M> <e:IM> <lq> <lp> <b2> <shape:v>
+    gal_share R <skLvl> <bufLvl> <skLvlP> <bufLvlP> <s:iv> <galEl> <crpShape:v> <crp:M> <e:IM> <lq> <lp> <b2> <shape:v>
                                                            → err | panic | g M
     gal_agg R g G g G g G   /  gal_aggtree R T <k> (g G)…  → err | panic | g M
     gal_key R g G <crpShape:v> <crp:M> g G                 → err | panic | g M
@@ -141,7 +141,7 @@ def handleOpt (toks : List String) : Option String :=
         ⟨(List.range rows.length).map fun i => ms[i % ms.length]!, rows⟩
       if tree.leaves.any (· ≥ k) then none
       some (showMat (tree.eval (· + ·) (fun i => polys[i]!)).c)
-  | ["evk_share", qs, ps, n, skInLvl, skOutLvl, sIn, sOut, crpShape, crp, e, lq, lp, b2, shape] => do
+  | ["evk_share", qs, ps, n, skInLvl, skOutLvl, skInLvlP, skOutLvlP, sIn, sOut, crpShape, crp, e, lq, lp, b2, shape] => do
       let qs ← parseVec? qs
       let ps ← parseVec? ps
       let n ← n.toNat?
@@ -151,7 +151,7 @@ def handleOpt (toks : List String) : Option String :=
       let e := errPolys ms crpShape (← parseIMat? e)
       let out := allocShare ms n (← lq.toNat?) (← lp.toInt?) (← b2.toNat?) (← parseVec? shape)
       let w := gadgetWs qs ps n out.base2 crpShape
-      some (showRes (evkGenShare (← skInLvl.toNat?) (← skOutLvl.toNat?)
+      some (showRes (evkGenShare (← skInLvl.toNat?) (← skOutLvl.toNat?) (← skInLvlP.toInt?) (← skOutLvlP.toInt?)
         (RPoly.ofInts ms (← parseIVec? sIn)) (RPoly.ofInts ms (← parseIVec? sOut)) crp w e out))
   | "evk_agg" :: qs :: ps :: _n :: rest => do
       let qs ← parseVec? qs
@@ -182,7 +182,7 @@ def handleOpt (toks : List String) : Option String :=
         if !rest.isEmpty then none
         some (showRes (genEvaluationKey sh crp evk))
       | _ => none
-  | ["gal_share", qs, ps, n, skLvl, s, galEl, crpShape, crp, e, lq, lp, b2, shape] => do
+  | ["gal_share", qs, ps, n, skLvl, bufLvl, skLvlP, bufLvlP, s, galEl, crpShape, crp, e, lq, lp, b2, shape] => do
       let qs ← parseVec? qs
       let ps ← parseVec? ps
       let n ← n.toNat?
@@ -194,8 +194,8 @@ def handleOpt (toks : List String) : Option String :=
       let out := allocShare ms n (← lq.toNat?) (← lp.toInt?) (← b2.toNat?) (← parseVec? shape)
       let w := gadgetWs qs ps n out.base2 crpShape
       let ginv := galInv galEl n
-      some (showGalRes (galGenShare (fun p => RPoly.aut p ginv) (← skLvl.toNat?)
-        (RPoly.ofInts ms (← parseIVec? s)) galEl crp w e ⟨0, out⟩))
+      some (showGalRes (galGenShare (fun p => RPoly.aut p ginv) (← skLvl.toNat?) (← bufLvl.toNat?)
+        (← skLvlP.toInt?) (← bufLvlP.toInt?) (RPoly.ofInts ms (← parseIVec? s)) galEl crp w e ⟨0, out⟩))
   | "gal_agg" :: qs :: ps :: _n :: rest => do
       let qs ← parseVec? qs
       let ps ← parseVec? ps
